@@ -191,8 +191,15 @@ where
             // tag is in the future; if it's "multiple", keep sending all tags in
             // between where we are now and payload.delivery_tag
             if payload.multiple {
-                let ret = (self.to_confirm)(self.parent.expected);
+                // A tag that was already confirmed individually keeps that outcome; the
+                // multiple confirmation only covers tags not confirmed yet.
+                let tag = self.parent.expected;
                 self.parent.expected += 1;
+                let ret = self
+                    .parent
+                    .out_of_order
+                    .remove(&tag)
+                    .unwrap_or_else(|| (self.to_confirm)(tag));
                 return Some(ret);
             } else {
                 // if it's _not_ multiple, stash it away in out_of_order
